@@ -114,13 +114,13 @@ pub fn gen09(ctx: &Ctx) {
     let mut rng = Rng::new(ctx.seed, "conn09");
     let mut out = Out::new(&ctx.dir, "conn09");
     out.rule = "two- and three-request histories: first request with every spelling/placement of the close token in request Connection fields (none, close, Close, lists, OWS, repeated fields, near-misses) x \
-                handler outcome (respond, respond with close, Err, respond then Err, read body) x hook outcome (none, answer, answer with close) x malformed head; then probe requests. \
+                handler outcome (respond, respond with close - plain, streamed, streamed with a list value -, Err of several io::ErrorKinds, respond then Err, read body) x hook outcome (none, answer, answer with close) x malformed head; then probe requests. \
                 non-trivial = at least one request answered".into();
     let conns: Vec<Vec<&[u8]>> = vec![
         vec![], vec![b"close"], vec![b"Close"], vec![b"CLOSE"], vec![b"keep-alive, close"], vec![b"close, keep-alive"], vec![b"close "], vec![b" close"], vec![b"\tclose\t"],
         vec![b"keep-alive"], vec![b"closed"], vec![b"x-close"], vec![b"clos"], vec![b"keep-alive", b"close"], vec![b"close", b"keep-alive"], vec![b"upgrade,\tClose ,x"], vec![b"\"close\""], vec![b""],
     ];
-    let paths = ["/none", "/close", "/err", "/errafter", "/all", "/first", "/k/2", "/reader/10", "/nosuch"];
+    let paths = ["/none", "/close", "/closer", "/closeka", "/err", "/errk/wb", "/errk/to", "/errk/intr", "/errk/pipe", "/errafter", "/all", "/first", "/k/2", "/reader/10", "/nosuch"];
     let hooks: [Option<&[u8]>; 3] = [None, Some(b"answer"), Some(b"answer-close")];
     let reps = if ctx.thorough { 6 } else { 1 };
     for _ in 0..reps {
